@@ -1056,7 +1056,10 @@ class Transiter(Interrupter):
         #find uncommon entry and exit lists associated with transition
         #exits, enters = framing.Framer.Uncommon(framer.actives,far.outline)
         #find uncommon and common entry and exit lists associated with transition
-        exits, enters, reexens = framing.Framer.ExEn(framer.actives, far)
+        # use full outline of the active frame since .actives may be truncated by a
+        # conditional aux and the suspended frames below its main frame are still entered
+        nears = framer.active.outline if framer.active else framer.actives
+        exits, enters, reexens = framing.Framer.ExEn(nears, far)
 
         #check enters, if successful, perform transition
         if not framer.checkEnter(enters, exits):
